@@ -538,6 +538,9 @@ Inductive scen :=
 | ScFlushAbandoned      (* pos Flush calls with a cancelled context, then Write+Flush (call under test) and Close *)
 | ScFloodThenRequest    (* pos uncollected calls, reply calls, chunks, metadata, then a request answered at once *)
 | ScReadManyGroups      (* ReadDataPoints of one chunk with pos alias-addressed groups, ack flush every 1 ms, State() polled *)
+| ScCloseSilent         (* stream Close against a broker that never acknowledges chunks and never answers the close
+                           request (pings are answered): pos 0/1 downstream, pos >= 2 upstream; the caller's context
+                           is already done at entry (p_ctx = 0) or expires during the final flush / ack wait *)
 | ScUpCloseSlowList.    (* Upstream.Close, ack withheld, both deadlines expire while sent.List is in progress *)
 Inductive beh := BAnswer | BDelay | BDrop | BMisaddr | BDisconnect.
 
@@ -559,7 +562,7 @@ Definition scen_eqb (a b : scen) : bool :=
   | ScCloseWhilePending, ScCloseWhilePending | ScCloseDuringOutage, ScCloseDuringOutage
   | ScUpCloseDuringOutage, ScUpCloseDuringOutage | ScUpCloseSlowList, ScUpCloseSlowList
   | ScFlushAbandoned, ScFlushAbandoned | ScFloodThenRequest, ScFloodThenRequest
-  | ScReadManyGroups, ScReadManyGroups => true
+  | ScReadManyGroups, ScReadManyGroups | ScCloseSilent, ScCloseSilent => true
   | _, _ => false
   end.
 
@@ -587,10 +590,17 @@ Definition scen_procs (sc : scen) (pr : params) : list proc :=
   | ScFlushAbandoned => [upWrite ctx; upFlush ctx (fun r => Ret r)]
   | ScFloodThenRequest => [connRequest 2 ctx 1]
   | ScReadManyGroups => [readDP ctx]
+  | ScCloseSilent => [upClose ctx (p_cto pr) 1]
   end.
 (* which of them is the call under test *)
 Definition scen_target (sc : scen) : nat :=
   match sc with ScStateAfterLateAck | ScCloseWhilePending | ScCloseDuringOutage | ScUpCloseDuringOutage | ScFlushAbandoned => 1%nat | _ => 0%nat end.
+(* ... where the processes depend on the position too *)
+Definition scen_procs_pos (sc : scen) (pos : N) (pr : params) : list proc :=
+  match sc, pos with
+  | ScCloseSilent, (0 | 1) => [downClose (Some (p_ctx pr)) 1]
+  | _, _ => scen_procs sc pr
+  end.
 
 (* what completes exchange number pos of the scenario *)
 Definition done_flag (sc : scen) (pos : N) : flag :=
@@ -602,6 +612,7 @@ Definition done_flag (sc : scen) (pos : N) : flag :=
   | ScCallWait, _ => FReplyCall
   | ScUpClose, 0 => FAcked
   | ScFlushAbandoned, _ => FFlushRes
+  | ScCloseSilent, _ => FReply 99       (* nothing the broker does completes it *)
   | ScReadManyGroups, _ => FDpAvail
   | _, _ => FReply 1
   end.
@@ -620,6 +631,7 @@ Definition scen_flags (sc : scen) (pos : N) : list flag :=
   | ScUpCloseDuringOutage => [FStConnected; FFlushReady; FFlushRes]
   | ScUpCloseSlowList => [FStConnected; FFlushReady; FFlushRes; FReply 1]
   | ScFlushAbandoned => [FStConnected; FWriteRecv; FFlushReady; FFlushRes]   (* the flush loop is back at its select *)
+  | ScCloseSilent => [FStConnected; FFlushReady; FFlushRes] ++ (match pos with 0 => [FFinalAck] | _ => [] end)
   | _ => [FStConnected]
   end.
 
@@ -657,7 +669,7 @@ Definition scen_events (sc : scen) (b : beh) (pos : N) (pr : params) : list (eve
   flat_map (fun te => [(ETick (fst te), 0%nat); (snd te, 0%nat)]) (sort_t (scen_script sc b pos pr)).
 
 Definition scen_run (sc : scen) (b : beh) (pos : N) (pr : params) : world :=
-  run (init (p_ka pr) (scen_flags sc pos) (scen_procs sc pr)) (scen_events sc b pos pr).
+  run (init (p_ka pr) (scen_flags sc pos) (scen_procs_pos sc pos pr)) (scen_events sc b pos pr).
 
 (* model prediction for the call under test: outcome class and the clock value at its return *)
 Definition predict (sc : scen) (b : beh) (pos : N) (pr : params) : outcome * option N :=
